@@ -15,6 +15,7 @@ pub mod c11;
 pub mod c14;
 pub mod c15;
 pub mod c16;
+pub mod c12;
 pub mod c17;
 
 pub fn dispatch(id: &str, opts: &mut Opts) -> i32 {
@@ -30,6 +31,7 @@ pub fn dispatch(id: &str, opts: &mut Opts) -> i32 {
         "C09" => run_prop(&c09::C09, opts),
         "C10" => run_prop(&c10::C10, opts),
         "C11" => run_prop(&c11::C11, opts),
+        "C12" => run_prop(&c12::C12, opts),
         "C13" => run_prop(&hostile::C13, opts),
         "C14" => run_prop(&c14::C14, opts),
         "C15" => run_prop(&c15::C15, opts),
